@@ -46,8 +46,8 @@ Print Assumptions C02_history_eth_handler_only_behind_evm_ante.
     the Ethereum handler, never touches an Ethereum account's nonce or balance, never creates a grant whose
     granter is Ethereum-derived (structural induction over message trees). *)
 Theorem C02_no_wrapper_reaches_the_eth_handler :
-  forall (w : world) (c : cfg), world_ok w -> wasm_signer c = true ->
-  forall t, msg_wf w t -> forall s s', w_is_eth w (signer_msg t) = false -> grants_ok w s ->
+  forall (w : world) (c : cfg), world_ok w -> wasm_signer c = true -> signer_recovered c = true ->
+  forall t, msg_wf w t -> forall s s', w_is_eth w (signer_msg c t) = false -> grants_ok w s ->
     run_msg c w t s = Some s' -> grants_ok w s' /\ frame w s s'.
 Proof. exact run_non_eth. Qed.
 Print Assumptions C02_no_wrapper_reaches_the_eth_handler.
@@ -55,7 +55,8 @@ Print Assumptions C02_no_wrapper_reaches_the_eth_handler.
 (** A transaction that does not go the EVM route leaves every Ethereum account's nonce and balance and the
     ghost trace exactly as they were. *)
 Theorem C02_cosmos_tx_leaves_eth_accounts_untouched :
-  forall (w : world) (c : cfg), world_ok w -> wasm_signer c = true -> sig_on c = true -> sig_accepts_eth c = false ->
+  forall (w : world) (c : cfg), world_ok w -> wasm_signer c = true -> signer_recovered c = true ->
+    sig_on c = true -> sig_accepts_eth c = false ->
   forall s x, tx_wf w x -> grants_ok w s -> route_tx c (t_ext x) = RouteNonEVM ->
     let s' := fst (deliver c w s x) in
     grants_ok w s' /\ ran s' = ran s /\
@@ -105,6 +106,12 @@ Theorem C02_refuted_if_eth_keys_sign_cosmos_txs :
   exists h x a, Forall (tx_wf harness_world) (h ++ [x]) /\ violated_by cfg_eth_keys_accepted h x a.
 Proof. exact refuted_if_eth_keys_sign_cosmos_txs. Qed.
 Print Assumptions C02_refuted_if_eth_keys_sign_cosmos_txs.
+
+(** MsgEthereumTx.GetSigners reading the unsigned `From` field instead of recovering the signer. *)
+Theorem C02_refuted_if_signers_read_from_field :
+  exists h x a, Forall (tx_wf harness_world) (h ++ [x]) /\ violated_by cfg_signer_from_field h x a.
+Proof. exact refuted_if_signers_read_from_field. Qed.
+Print Assumptions C02_refuted_if_signers_read_from_field.
 
 (** The wasm handler's "signer must be the contract" check dropped. *)
 Theorem C02_refuted_if_wasm_signer_unchecked :
